@@ -62,6 +62,19 @@ Record wstate := mkW { wrest : list token; wprev : option token }.
 
 (* what an unexpectedTokenError carries besides the token: the expected types, or the fixed text *)
 Inductive werr := Expected (l : list ttype) | TooDeep.
+(* the expected sets are the arguments of the unexpectedToken / popType calls, read by the translator
+   (TokensGen.walker_expected: per function, in source order) *)
+Definition exp_of (fn : string) (i : nat) : list ttype :=
+  map ttype_of_code (nth i (match assoc_s TokensGen.walker_expected fn with Some l => l | None => [] end) []).
+Definition exp_ident := exp_of "popIdent" 0.
+Definition exp_elems := exp_of "popValue" 0.
+Definition exp_value := exp_of "popValue" 1.
+Definition exp_tag := exp_of "popTag" 0.
+Definition exp_end := exp_of "endStatement" 0.
+Definition exp_assign := exp_of "walkValueAssign" 0.
+Definition exp_plus_assign := exp_of "walkStatement" 0.
+Definition exp_header := exp_of "walkStatement" 1.
+Definition exp_fragment := exp_of "nextFragment" 0.
 
 Inductive wres (A : Type) :=
 | WOk (a : A) (s : wstate)
@@ -112,7 +125,7 @@ Definition pop_ident (s : wstate) : wres token :=
   wbind (pop_token s) (fun t s1 =>
     match as_ident t with
     | Some i => WOk i s1
-    | None => WErr t (Expected [IDENT]) s1
+    | None => WErr t (Expected exp_ident) s1
     end).
 
 (* popReference *)
@@ -152,7 +165,7 @@ Fixpoint pop_elems (pv : wstate -> wres value) (fuel2 : nat) (opener : token) (a
         wbind (pop_token s2) (fun _ s3 => pop_elems pv f2 opener acc' s3)
       else if tt_eqb (next_type s2) RBRACK then
         wbind (pop_token s2) (fun _ s3 => WOk (VArr acc' (tstart opener) (current_pos s3)) s3)
-      else wbind (pop_token s2) (fun t s3 => WErr t (Expected [COMMA; RBRACK]) s3))
+      else wbind (pop_token s2) (fun t s3 => WErr t (Expected exp_elems) s3))
   end.
 
 (* maxValueDepth: popValue refuses to open an array nested deeper than this (it recurses once per
@@ -174,7 +187,7 @@ Fixpoint pop_value (fuel : nat) (depth : N) (s : wstate) : wres value :=
         else if tt_eqb (next_type s1) RBRACK then
           wbind (pop_token s1) (fun _ s2 => WOk (VArr [] (tstart opener) (current_pos s2)) s2)
         else pop_elems (pop_value f (N.succ depth)) (S (length (wrest s1))) opener [] s1)
-    else wbind (pop_token s) (fun t s1 => WErr t (Expected [AnyLiteral; LBRACK]) s1)
+    else wbind (pop_token s) (fun t s1 => WErr t (Expected exp_value) s1)
   end.
 Definition pop_value_top (s : wstate) : wres value := pop_value (S (length (wrest s))) 0%N s.
 
@@ -201,7 +214,7 @@ Definition pop_tag (s : wstate) : wres tag :=
       wbind (pop_reference s) (fun r s1 => WOk (mkTag mk mt (TagRef r) (ref_start r) (ref_end r)) s1)
     | STRING =>
       wbind (pop_value_top s) (fun v s1 => WOk (mkTag mk mt (TagVal v) (value_start v) (value_end v)) s1)
-    | _ => wbind (pop_token s) (fun t s1 => WErr t (Expected [IDENT; BOOL; STRING]) s1)
+    | _ => wbind (pop_token s) (fun t s1 => WErr t (Expected exp_tag) s1)
     end in
   match next_type s with
   | BANG => wbind (pop_token s) (fun t s1 => after_mark MarkBang (Some t) s1)
@@ -218,16 +231,16 @@ Definition end_statement (s : wstate) : wres (option comment) :=
       wbind (pop_token s1) (fun t2 s2 =>
         match ty t2 with
         | EOL | EOF => WOk c s2
-        | _ => WErr t2 (Expected [COMMENT; EOL]) s2
+        | _ => WErr t2 (Expected exp_end) s2
         end)
     | EOL | EOF => WOk None s1
-    | _ => WErr t (Expected [COMMENT; EOL]) s1
+    | _ => WErr t (Expected exp_end) s1
     end).
 
 (* walkValueAssign *)
 Definition walk_value_assign (r : reference) (app : bool) (s : wstate) : wres fragment :=
   wbind (pop_token s) (fun t s1 =>
-    if negb (tt_eqb (ty t) ASSIGN) then WErr t (Expected [ASSIGN]) s1 else
+    if negb (tt_eqb (ty t) ASSIGN) then WErr t (Expected exp_assign) s1 else
     wbind (pop_value_top s1) (fun v s2 =>
       wbind (end_statement s2) (fun c s3 =>
         WOk (FAssign (mkAssign r app v (ref_start r) (value_end v) c)) s3))).
@@ -256,7 +269,7 @@ Definition walk_statement (s : wstate) : wres fragment :=
     if tt_eqb (next_type s1) ASSIGN then walk_value_assign r false s1
     else if tt_eqb (next_type s1) PLUS then
       wbind (pop_token s1) (fun _ s2 =>
-        if negb (tt_eqb (next_type s2) ASSIGN) then wbind (pop_token s2) (fun t s3 => WErr t (Expected [ASSIGN]) s3)
+        if negb (tt_eqb (next_type s2) ASSIGN) then wbind (pop_token s2) (fun t s3 => WErr t (Expected exp_plus_assign) s3)
         else walk_value_assign r true s2)
     else
       wbind (tags_loop (S (length (wrest s1))) [] s1) (fun tags s2 =>
@@ -277,7 +290,7 @@ Definition walk_statement (s : wstate) : wres fragment :=
             WOk (FHeader (mkHeader r tags quals None false start e c)) s4)
         | EOL | EOF =>
           WOk (FHeader (mkHeader r tags quals None false start (current_pos s3) None)) s3
-        | _ => wbind (pop_token s3) (fun t s4 => WErr t (Expected [LBRACE; EOL; DESCRIPTION; IDENT]) s4)
+        | _ => wbind (pop_token s3) (fun t s4 => WErr t (Expected exp_header) s4)
         end))).
 
 (* nextFragment (None = no fragment: an empty line) *)
@@ -288,7 +301,7 @@ Definition next_fragment (s : wstate) : wres (option fragment) :=
   | COMMENT | BLOCK_COMMENT => wbind (pop_token s) (fun t s1 => WOk (Some (FComment t)) s1)
   | DESCRIPTION => wbind (pop_description s) (fun d s1 => WOk (Some (FDesc d)) s1)
   | IDENT | BOOL => wbind (walk_statement s) (fun f s1 => WOk (Some f) s1)
-  | _ => wbind (pop_token s) (fun t s1 => WErr t (Expected [IDENT; COMMENT; DESCRIPTION; RBRACE; EOL]) s1)
+  | _ => wbind (pop_token s) (fun t s1 => WErr t (Expected exp_fragment) s1)
   end.
 
 (* recoverError (collect-all): skip to and including the next EOL (or EOF) *)
@@ -305,23 +318,16 @@ Fixpoint skip_to_eol (fuel : nat) (s : wstate) : wres unit :=
 Definition tok_string (t : token) : list N :=
   if is_literal (ty t) then
     let b := utf8_encode (lit t) in
-    let short := if Nat.ltb 20 (length b) then firstn 17 b ++ [46; 46; 46]%N else b in
-    tt_text (ty t) ++ [40%N] ++ short ++ [41%N]
-  else if is_operator (ty t) then [111; 112; 101; 114; 97; 116; 111; 114; 40; 39]%N ++ tt_text (ty t) ++ [39; 41]%N
+    let short := if Nat.ltb 20 (length b) then firstn 17 b ++ slit "token.go:String" 0 else b in
+    sprintf (slit "token.go:String" 1) [tt_text (ty t); short]
+  else if is_operator (ty t) then sprintf (slit "token.go:String" 3) [tt_text (ty t)]
   else tt_text (ty t).
-(* strings.Join of byte strings *)
-Fixpoint join_bytes (sep : list N) (ls : list (list N)) : list N :=
-  match ls with
-  | [] => []
-  | [l] => l
-  | l :: r => l ++ sep ++ join_bytes sep r
-  end.
 (* unexpectedTokenError.msg() *)
 Definition walker_msg (t : token) (e : werr) : list N :=
   match e with
-  | TooDeep => [97; 114; 114; 97; 121; 115; 32; 110; 101; 115; 116; 101; 100; 32; 109; 111; 114; 101; 32; 116; 104; 97; 110; 32]%N ++ N_to_dec max_value_depth ++ [32; 100; 101; 101; 112]%N
-  | Expected [x] => [117; 110; 101; 120; 112; 101; 99; 116; 101; 100; 32]%N ++ tok_string t ++ [44; 32; 119; 97; 110; 116; 32]%N ++ tt_text x
-  | Expected l => [117; 110; 101; 120; 112; 101; 99; 116; 101; 100; 32]%N ++ tok_string t ++ [44; 32; 119; 97; 110; 116; 32; 111; 110; 101; 32; 111; 102; 32]%N ++ join_bytes [44; 32]%N (map tt_text l)
+  | TooDeep => sprintf (slit "parser.go:popValue" 0) [N_to_dec max_value_depth]
+  | Expected [x] => sprintf (slit "errors.go:msg" 0) [tok_string t; tt_text x]
+  | Expected l => sprintf (slit "errors.go:msg" 1) [tok_string t; join_bytes (slit "errors.go:msg" 2) (map tt_text l)]
   end.
 Definition diag_of_tok (t : token) (e : werr) : diag := mkDiag (tstart t) (tend t) (walker_msg t e).
 
@@ -373,8 +379,8 @@ Inductive stmt :=
 Definition close_level (h : header) (body : list stmt) (parent : list stmt) : list stmt :=
   parent ++ [SBlock h body].
 
-Definition msg_close : list N := [117; 110; 101; 120; 112; 101; 99; 116; 101; 100; 32; 99; 108; 111; 115; 101; 32; 98; 108; 111; 99; 107]%N.
-Definition msg_unclosed : list N := [117; 110; 99; 108; 111; 115; 101; 100; 32; 98; 108; 111; 99; 107; 32; 97; 116; 32; 69; 79; 70]%N.
+Definition msg_close : list N := slit "parser.go:fragmentsToFile" 0.
+Definition msg_unclosed : list N := slit "parser.go:fragmentsToFile" 1.
 
 Fixpoint to_file_loop (fs : list fragment) (cur : list stmt) (stack : list (header * list stmt))
                       (errs : list diag) : list stmt * list (header * list stmt) * list diag :=
